@@ -249,6 +249,15 @@ func (g bGamma) vset(al []int) versions.Set {
 	return cand
 }
 
+// addRegistry adds a registry source; a request that pins exactly one version is made, on odd name tables, with the
+// already-versioned form of the address (AddFinalRegistrySource), which must behave like the pinned request.
+func (e *bEnv) addRegistry(ctx context.Context, b *sourcebundle.Builder, a bArt) sourcebundle.Diagnostics {
+	if len(a.Src.Allowed) == 1 && e.g.seed%2 == 1 {
+		return b.AddFinalRegistrySource(ctx, e.g.registry(a.Src).Versioned(e.g.ver(a.Src.Allowed[0])), bFinder{e, a.F})
+	}
+	return b.AddRegistrySource(ctx, e.g.registry(a.Src), e.g.vset(a.Src.Allowed), bFinder{e, a.F})
+}
+
 func pkgName(p sourceaddrs.RemotePackage) string {
 	b := filepath.Base(p.URL().Path)
 	b = strings.TrimSuffix(strings.TrimSuffix(b, ".git"), ".tgz")
@@ -601,7 +610,7 @@ func (e *bEnv) build(adds []bAdd, wantClose bool) *sourcebundle.Bundle {
 		if a.Src.K == "rem" {
 			diags = b.AddRemoteSource(ctx, e.g.remote(a.Src), bFinder{e, a.F})
 		} else {
-			diags = b.AddRegistrySource(ctx, e.g.registry(a.Src), e.g.vset(a.Src.Allowed), bFinder{e, a.F})
+			diags = e.addRegistry(ctx, b, a)
 		}
 		return
 	}
@@ -769,7 +778,7 @@ func (e *bEnv) buildScheduled(c *bCase) (*sourcebundle.Bundle, bool) {
 					if a.Src.K == "rem" {
 						diags = b.AddRemoteSource(ctx, e.g.remote(a.Src), bFinder{e, a.F})
 					} else {
-						diags = b.AddRegistrySource(ctx, e.g.registry(a.Src), e.g.vset(a.Src.Allowed), bFinder{e, a.F})
+						diags = e.addRegistry(ctx, b, a)
 					}
 				}()
 				resMu.Lock()
@@ -823,7 +832,7 @@ func (e *bEnv) buildConcurrent(adds []bAdd) *sourcebundle.Bundle {
 			if a.Src.K == "rem" {
 				diags = b.AddRemoteSource(ctx, e.g.remote(a.Src), bFinder{e, a.F})
 			} else {
-				diags = b.AddRegistrySource(ctx, e.g.registry(a.Src), e.g.vset(a.Src.Allowed), bFinder{e, a.F})
+				diags = e.addRegistry(ctx, b, a)
 			}
 			if diags.HasErrors() {
 				atomic.StoreInt32(&failed, 1)
@@ -990,6 +999,10 @@ func (e *bEnv) inspect(bundle *sourcebundle.Bundle) {
 		p3, err3 := bundle.LocalPathForSource(reg.Versioned(g.ver(n.V)))
 		if err3 != nil || p3 != p {
 			obs.LookupBad = append(obs.LookupBad, "registry "+n.Rpkg+": final-source lookup differs")
+		}
+		p4, err4 := bundle.LocalPathForFinalRegistrySource(reg.Versioned(g.ver(n.V)))
+		if err4 != nil || p4 != p {
+			obs.LookupBad = append(obs.LookupBad, "registry "+n.Rpkg+": versioned-source lookup differs")
 		}
 	}
 	ents, _ := os.ReadDir(e.dir)
